@@ -126,7 +126,7 @@ func same(r rec, e *appencryption.EnvelopeKeyRecord) string {
 var idPool = []string{"_SK_svc_prod", "_IK_part_svc_prod", "_IK_part_svc_prod_us-west-2", "_IK_a'b\"c;--_svc_prod", "_IK_é世界_svc_prod", "_IK_" + strings.Repeat("x", 240), "_IK__", " "}
 
 func TestModel(t *testing.T) {
-	kit.Check(t, 3000, 480000, func(t *rapid.T) {
+	kit.Check(t, 10000, 480000, func(t *rapid.T) {
 		name := rapid.SampledFrom(backendNames).Draw(t, "backend")
 		b := newBackend(t, name)
 		defer b.cleanup()
